@@ -1,5 +1,7 @@
 package vanguard
 
+import "connectrpc.com/connect"
+
 // Shared helpers for harnesses (compiled both for the engine and natively).
 
 // nondetBytes returns n symbolic bytes named name.
@@ -27,3 +29,5 @@ func bytesEq(a, b []byte) bool {
 	}
 	return eq
 }
+
+func connectCodeU32(c connect.Code) uint32 { return uint32(c) }
